@@ -30,11 +30,12 @@ class Ins(Edit):
 class ForLoop(Edit):
     """rule E1. pattern must match from `for` up to and including the `{` that opens the body."""
 
-    def __init__(self, pattern, it, spec, occ=1, into_iter=True, place=None, label=None, pre='', body_pre=''):
+    def __init__(self, pattern, it, spec, occ=1, into_iter=True, place=None, label=None, pre='', body_pre='', by_ref=True):
         # pre: ghost text between the iterator binding and `loop`; body_pre: ghost text at the start of the
         # loop body, before `let Some(p) = it.next() else { break };`
         self.pattern, self.it, self.spec, self.occ = pattern, it, spec, occ
         self.into_iter, self.place, self.label, self.pre, self.body_pre = into_iter, place, label, pre, body_pre
+        self.by_ref = by_ref  # place given as `X.by_ref()`; False: the iterated expression is a `&mut I` variable itself
 
 
 class LoopSpec(Edit):
@@ -92,6 +93,11 @@ class Struct:
         # dyn_param: name of the type parameter that replaces a field of type `Arc<dyn Fn..>` (rule E2)
         self.file, self.name, self.derive, self.extra, self.dyn_param = file, name, derive, extra, dyn_param
         self.drop_fields = drop_fields
+
+
+class Enum:
+    def __init__(self, file, name, derive=None):
+        self.file, self.name, self.derive = file, name, derive
 
 
 class IdMacro:
@@ -526,7 +532,7 @@ class Extractor:
                     close = src.pair[me - 1]
                     if e.place:
                         # `for p in PLACE.by_ref()` iterates PLACE itself
-                        if norm(expr_txt) != norm(e.place + '.by_ref()'):
+                        if norm(expr_txt) != norm(e.place + ('.by_ref()' if e.by_ref else '')):
                             raise ExtractError('ForLoop place %r does not match iterated expression %r in %s' % (e.place, expr_txt, what))
                         itname = e.place
                         intro = '{ ' + e.pre
@@ -682,6 +688,23 @@ class Extractor:
         self.log('E4', 'struct %s (%s)' % (sdef.name, sdef.file), 'derive(%s)' % ', '.join(derives), 'derive(%s); all fields pub' % ', '.join(keep))
         if sdef.extra:
             res += sdef.extra + '\n'
+        return res, src.line_of(toks[kw].s)
+
+    def extract_enum(self, edef):
+        src = self.src(edef.file)
+        toks, text = src.toks, src.text
+        found = None
+        for (s, kw, e) in split_items(src, 0, len(toks)):
+            if toks[kw].text == 'enum' and toks[kw + 1].text == edef.name:
+                found = (s, kw, e)
+        if not found:
+            raise ExtractError('enum %s not found in %s' % (edef.name, edef.file))
+        s, kw, e = found
+        body = text[toks[kw].s:toks[e - 1].e]
+        body = re.sub(r'^\s*///.*\n', '', body, flags=re.M)
+        keep = [d for d in (edef.derive or [])]
+        res = ('#[derive(%s)]\n' % ', '.join(keep) if keep else '') + 'pub ' + body + '\n'
+        self.log('E4', 'enum %s (%s)' % (edef.name, edef.file), 'derives/doc comments', 'dropped; pub')
         return res, src.line_of(toks[kw].s)
 
     # ------------------------------------------------------------------ impl_id! expansion (E7)
@@ -932,6 +955,9 @@ def build_unit(unit, repo, unit_dir, canary=False):
             if isinstance(it, Struct):
                 txt, line = ex.extract_struct(it)
                 txt = genericize(txt, gtypes)
+                out.add(txt, ('struct', it.name, it.file, line))
+            elif isinstance(it, Enum):
+                txt, line = ex.extract_enum(it)
                 out.add(txt, ('struct', it.name, it.file, line))
             elif isinstance(it, IdMacro):
                 out.add(ex.expand_id(it), ('idmacro', it.name, it.file, 0))
